@@ -10,8 +10,11 @@ SHAPES = [
     ("usage identified", 3, True, "ex:", ["en:x", "en:a", None], None),
     ("generation identified T0", 2, True, "ex:", ["en:a", None, TIMES[0]], None),
     ("usage anonymous other end", 3, False, None, ["en:x", "en:b", None], None),
+    ("specialization", 14, False, None, ["en:x", "en:a"], None),
+    ("mention without bundle", 16, False, None, ["en:x", "en:a", None], None),
+    ("alternate", 15, False, None, ["en:x", "en:a"], None),
 ]
-MENU = {"full": [0, 1, 2, 3, 4, 5, 6], "mid": [0, 2, 3, 4], "small": [0, 3]}
+MENU = {"full": [0, 1, 2, 3, 4, 5, 6, 7, 8, 9], "mid": [0, 2, 3, 4], "small": [0, 3]}
 
 
 def _make(ctx, b, si):
@@ -117,7 +120,8 @@ def triples(ctx):
     ctx.observe("eq", e)
 
 
-PRESERVING = ["permute", "respell_prefix", "duplicate", "rebuild_from_records", "json_container_round_trip", "unified_twice"]
+PRESERVING = ["permute", "respell_prefix", "duplicate", "rebuild_from_records", "json_container_round_trip", "unified_twice",
+              "lookups_then_rebuild"]
 
 
 def preserving(ctx):
@@ -158,14 +162,70 @@ def preserving(ctx):
 
         d2 = ProvDocument()
         decode_json_document(encode_json_document(d), d2)
-    else:
+    elif t == 5:
         d2 = d.unified()
         d = d.unified()
+    else:
+        # identifier lookups (present and absent names) must not influence equality
+        for r in list(d.get_records()):
+            if r.identifier is not None:
+                d.get_record(r.identifier)
+        d.get_record("en:absent")
+        for b in d.bundles:
+            b.get_record("en:absent")
+        d2 = ProvDocument()
+        d2.update(d)
     spec = _set_eq_docs(S, S.doc_desc(d), S.doc_desc(d2))
     ctx.check(spec, "harness: transformation %s did not preserve strict content" % PRESERVING[t])
     ctx.check(bool(d == d2), "%s: d == d' is False for a content-preserving transformation" % PRESERVING[t])
     ctx.check(bool(d2 == d), "%s: d' == d is False for a content-preserving transformation" % PRESERVING[t])
     ctx.check(not bool(d != d2) and not bool(d2 != d), "%s: != holds for a content-preserving transformation" % PRESERVING[t])
+
+
+MUTATIONS = ["add_attributes", "add_asserted_type", "set_time", "get_attribute live set"]
+
+
+def mutate_then_compare(ctx):
+    """a record that was compared / hashed and is then modified in place must equal (and hash like) a record built afresh
+    with the final content"""
+    from oracles import strict as S
+    from harness.common import TIMES as T
+
+    stub_logging_str(ctx)
+    m = ctx.params["mutation"]
+    v = ctx.bigint("v")
+    d1, d2 = new_doc(), new_doc()
+    a = d1.activity("ex:a", None, None, {"ex:k": v})
+    twin0 = d2.activity("ex:a", None, None, {"ex:k": v})
+    ctx.check(bool(d1 == d2) and bool(a == twin0), "equal documents compare unequal before the mutation")
+    if not ctx.sym:
+        ctx.check(hash(a) == hash(twin0), "equal records hash differently")
+    d3 = new_doc()
+    if m == 0:
+        w = ctx.bigint("w")
+        a.add_attributes({"ex:j": w})
+        b = d3.activity("ex:a", None, None, {"ex:k": v, "ex:j": w})
+    elif m == 1:
+        q = d1.valid_qualified_name("ex:T")
+        a.add_asserted_type(q)
+        b = d3.activity("ex:a", None, None, {"ex:k": v, "prov:type": d3.valid_qualified_name("ex:T")})
+    elif m == 2:
+        a.set_time(T[0], T[1])
+        b = d3.activity("ex:a", T[0], T[1], {"ex:k": v})
+    else:
+        a.get_attribute("ex:k").add(7)
+        b = d3.activity("ex:a", None, None, [("ex:k", v), ("ex:k", 7)])
+    spec = S.record_eq(S.record_desc(a), S.record_desc(b))
+    ctx.check(bool(a == b) == spec and bool(b == a) == spec, "record == disagrees with content equivalence after an in-place modification")
+    ctx.check(bool(d1 == d3) == spec and bool(d3 == d1) == spec, "document == disagrees with content equivalence after an in-place modification")
+    if not ctx.sym and a == b:
+        ctx.check(hash(a) == hash(b), "records equal after an in-place modification hash differently (stale hash)")
+        # a document holding the modified record twice equals one holding it once (set semantics rely on the hash)
+        d4 = new_doc()
+        d4.add_record(b)
+        d4.add_record(a)
+        ctx.check(d4 == d3 and d3 == d4, "a repeated identical record changes document equality (stale hash)")
+    ctx.observe("m", m)
 
 
 def _pair_shards(tier):
@@ -227,6 +287,12 @@ _FUNCS = ["prov.model.ProvRecord.__eq__/__hash__/attributes", "prov.model.ProvBu
           "prov.identifier.Identifier.__eq__", "prov.identifier.QualifiedName.__hash__", "prov.model.Literal.__eq__"]
 
 OBLIGATIONS = [
+    Obligation(name="mutate_then_compare", fn=mutate_then_compare, shards=[{"mutation": i} for i in range(len(MUTATIONS))],
+               desc="a record that took part in == (and hash) and is then modified in place (add_attributes, add_asserted_type, set_time, live attribute set) "
+                    "equals - and on replay hashes like - a record built afresh with the final content; a repeated identical record does not change document equality",
+               bounds="one activity with symbolic int values; 4 kinds of in-place modification", assumptions=_ASSUME,
+               functions=["prov.model.ProvRecord.__eq__/__hash__/add_attributes/add_asserted_type/get_attribute", "prov.model.ProvActivity.set_time"],
+               budget_s=(100, 300), per_path_s=(20, 40)),
     Obligation(name="pairs", fn=pairs, shards=_pair_shards,
                desc="for every pair of documents in bounds: d1==d2, d2==d1 and not(d1!=d2) all equal the set-based content "
                     "equivalence computed by an independent oracle; same for bundles and for every record pair (+hash on replay)",
